@@ -1,4 +1,4 @@
-//go:build verif
+//go:build verif && (p_all || p_c07)
 
 package props
 
@@ -307,5 +307,46 @@ func c07Finish(c *mon.Ctx) {
 			seen[m] = cause
 			c.Count("error-class:" + cause + ":" + m)
 		}
+	}
+}
+
+func c07RunConc(c *mon.Ctx, seed uint64) {
+	r := concRng("C07", seed)
+
+	var jobs []func() string
+
+	for i := 0; i < concJobs; i++ {
+		v := gen.Draw256(r, oracle.N).X
+		in := oracle.Bytes32(v)
+		accept := v.Cmp(oracle.N) < 0
+		dec := i % 3
+		jobs = append(jobs, func() string {
+			s := mon.Scal(big.NewInt(77))
+
+			var err error
+
+			switch dec {
+			case 0:
+				err = s.Decode(in)
+			case 1:
+				err = s.UnmarshalBinary(in)
+			default:
+				err = s.DecodeHex(mon.H(in))
+			}
+
+			if (err == nil) != accept {
+				return fmt.Sprintf("decode of %x: accepted=%v, want %v", v, err == nil, accept)
+			}
+
+			if accept && (mon.ScalVal(s).Cmp(v) != 0 || !bytes.Equal(s.Encode(), in) || s.Hex() != mon.H(in)) {
+				return fmt.Sprintf("decode/encode of %x gives %x", v, mon.ScalVal(s))
+			}
+
+			return ""
+		})
+	}
+
+	if c.RunConcurrent("scalar Decode/Encode", "scalar-codec-concurrent", 3000, jobs) {
+		c.Seen("conc", seed)
 	}
 }
